@@ -61,4 +61,53 @@ theorem C18_scaledppm_roundtrip_kernel (x : Int) (h1 : -32768000 ≤ x) (h2 : x 
 
 example : (32768000 : Int).natAbs ≤ 2 ^ 51 := by decide
 
+/-! ### frequency -> scaled ppm -> frequency -/
+
+/-- C18, reverse direction, "within one unit in the last place of the scaled value":
+    for a finite frequency `f` whose scaled value `f · 65536·10^6` is at most `2^40` in
+    magnitude (the kernel's range is `2^25`), converting to scaled ppm and back gives a
+    finite frequency whose scaled value differs from that of `f` by at most `1 + 2^-11`
+    scaled units (1 from the truncation to an integer, the rest from three roundings). -/
+theorem C18_freq_roundtrip (f : F64) (hf : isFinite f = true)
+    (h : (toRat f * 65536000000).abs ≤ pow2 40) :
+    isFinite (freqFromScaledPPM (scaledPPMFromFreq f)) = true ∧
+    (toRat (freqFromScaledPPM (scaledPPMFromFreq f)) * 65536000000 - toRat f * 65536000000).abs
+      ≤ 1 + pow2 (-11) := by
+  unfold freqFromScaledPPM scaledPPMFromFreq
+  rw [pow2_40_lit] at h
+  have hmax : (1099511627778 : Rat) ≤ maxFin := by
+    refine Rat.le_trans ?_ (pow2_le_maxFin (K := 53) (by decide)); rw [pow2_53_lit]; grind
+  -- the product
+  obtain ⟨fin1, val1⟩ := toRat_mul hf isFinite_scaleF
+    (by rw [toRat_scaleF]; exact Rat.le_trans h (Rat.le_trans (by grind) hmax))
+  rw [toRat_scaleF] at val1
+  have e1 := Rat.le_trans (rnd_err_gen (toRat f * 65536000000)) (Rat.add_le_add_left.2 eta_le')
+  rw [pow2_53_lit] at e1
+  generalize toRat f * 65536000000 = p at *
+  generalize mul f scaleF = y at *
+  -- the truncation
+  have et := trunc_err (toRat y)
+  obtain ⟨hr, hS⟩ := rtf_arith0 h (by rw [← val1] at e1; exact e1) et
+  rw [abs_le_iff] at hr hS
+  rw [toInt64_eq_trunc fin1 (by rw [pow2_63_lit]; grind) (by rw [pow2_63_lit]; grind)]
+  generalize trunc (toRat y) = s at *
+  have hs : s.natAbs ≤ 2 ^ 53 := by
+    have := natAbs_le_of_bounds (s := s) (n := 1099511627778) (by simpa using hS.1) (by simpa using hS.2)
+    omega
+  -- the quotient
+  have hq : ((s : Rat) / 65536000000).abs ≤ maxFin := by
+    refine Rat.le_trans ?_ hmax; rw [abs_le_iff]; grind
+  obtain ⟨fin2, val2⟩ := toRat_div (isFinite_ofInt_exact hs) isFinite_scaleF
+    (by rw [toRat_scaleF]; decide) (by rw [toRat_scaleF, toRat_ofInt_exact hs]; exact hq)
+  rw [toRat_scaleF, toRat_ofInt_exact hs] at val2
+  refine ⟨fin2, ?_⟩
+  have e2 := Rat.le_trans (rnd_err_gen ((s : Rat) / 65536000000)) (Rat.add_le_add_left.2 eta_le')
+  rw [pow2_53_lit] at e2
+  rw [val2, pow2_m11]
+  exact rtf_arith h (by rw [← val1] at e1; exact e1) et e2
+
+/-- the hypothesis is met by every frequency within the kernel's ±500 ppm -/
+example : ((500 : Rat) / 1000000 * 65536000000).abs ≤ pow2 40 := by
+  rw [pow2_40_lit, abs_le_iff]; grind
+
 end ScionTime.C18Float
